@@ -4,6 +4,7 @@ import (
 	"fmt"
 	"go/token"
 	"go/types"
+	"math"
 	"strings"
 
 	"golang.org/x/tools/go/ssa"
@@ -67,24 +68,49 @@ func runC05Float(c *Ctx) {
 		c.Errorf("anchor geom.appendFloat does not resolve")
 		return
 	}
-	fn := FuncName(f)
-	for _, r := range returnsOf(f) {
-		call, ok := r.Results[0].(*ssa.Call)
-		good := false
-		why := "returns something other than strconv.AppendFloat(...)"
-		if ok && calleeName(call) == "strconv.AppendFloat" {
-			a := call.Call.Args
-			k1, ok1 := constInt(a[2])
-			k2, ok2 := constInt(a[3])
-			k3, ok3 := constInt(a[4])
-			if a[0] == ssa.Value(f.Params[0]) && a[1] == ssa.Value(f.Params[1]) && ok1 && k1 == 'f' && ok2 && k2 == -1 && ok3 && k3 == 64 {
-				good = true
-			} else {
-				why = fmt.Sprintf("AppendFloat called with format %q precision %d bits %d (needs 'f', -1, 64 on the unmodified value)", rune(k1), k2, k3)
+	// appendFloat interpreted on a few values (an ordinary one, -0, a huge one, a value that is
+	// exact in single precision): whatever the code looks like, the text comes from ONE call
+	// strconv.AppendFloat(dst, f, 'f', -1, 64) on the unmodified arguments, and is returned
+	problem, undec := "", ""
+	for _, v := range []float64{1.5, math.Copysign(0, -1), 1e21, float64(float32(0.1)), -123456.789} {
+		m := &Model{Num: map[string]float64{}, Bool: map[string]bool{}, Missing: map[string]bool{}}
+		it := &k4interp{p: c.P, m: m, mem: map[string]k4val{}}
+		calls := 0
+		var got []k4val
+		it.onOpaque = func(name string, args []k4val) {
+			switch name {
+			case "strconv.AppendFloat":
+				calls++
+				got = args
+			case "strconv.FormatFloat", "strconv.AppendInt", "strconv.Itoa", "fmt.Sprintf", "fmt.Sprint", "fmt.Appendf":
+				calls += 100
 			}
 		}
-		c.Check(good, r.Pos(), fn, "formatting path", "strconv.AppendFloat(dst, f, 'f', -1, 64)", why+": ordinates are no longer rendered with the shortest round-trip representation (e.g. -0 becomes 0, digits are lost, or exponent form appears)")
+		res, err := it.call(f, []k4val{{kind: 3, s: "$0"}, {kind: 2, f: v}}, nil)
+		if err != nil || len(res) != 1 {
+			undec = fmt.Sprintf("value %v: %v %v %s", v, err, res, trunc(missingList(m)))
+			break
+		}
+		switch {
+		case calls != 1 || len(got) != 5:
+			problem = fmt.Sprintf("for the value %v the text is not produced by exactly one strconv.AppendFloat call", v)
+		case got[0].String() != "$0" || got[1].kind != 2 || math.Float64bits(got[1].f) != math.Float64bits(v):
+			problem = fmt.Sprintf("for the value %v AppendFloat is called on (%s, %s), not on the unmodified (dst, f)", v, trunc(got[0].String()), got[1].String())
+		case got[2].kind != 2 || got[2].f != 'f' || got[3].kind != 2 || got[3].f != -1 || got[4].kind != 2 || got[4].f != 64:
+			problem = fmt.Sprintf("for the value %v AppendFloat is called with format %q precision %v bits %v (needs 'f', -1, 64)", v, rune(int(got[2].f)), got[3].f, got[4].f)
+		case !strings.HasPrefix(res[0].String(), "strconv.AppendFloat("):
+			problem = fmt.Sprintf("for the value %v the result returned is %s, not what AppendFloat returned", v, trunc(res[0].String()))
+		}
+		if problem != "" {
+			break
+		}
 	}
+	reportK4(c, f, "formatting path", undec, problem+func() string {
+		if problem == "" {
+			return ""
+		}
+		return ": ordinates are no longer rendered with the shortest round-trip representation (e.g. -0 becomes 0, digits are lost, or exponent form appears)"
+	}(), "strconv.AppendFloat(dst, f, 'f', -1, 64), returned as it is")
 	// and every float written by the WKT/GeoJSON writers goes through it: no other strconv float formatting in those writers
 	for _, g := range c.P.Funcs {
 		if pkgOf(g) != "geom" || g == f {
@@ -475,48 +501,93 @@ func runC09Distance(c *Ctx) {
 	// distance to the box it is given, and the early stop is only sound when
 	// that is the same lower bound (the item's own bounds)
 	searches := 0
+	// judge one search: the box value and the envelope values that travel with it
+	judge := func(boxV ssa.Value, envVs []ssa.Value) (recv ssa.Value, bad string) {
+		boxCall, ok := boxV.(*ssa.Call)
+		if !ok {
+			return nil, "the search box is not the box() of an item"
+		}
+		cal := staticCallee(boxCall)
+		if cal == nil || cal.Name() != "box" || len(boxCall.Call.Args) != 1 {
+			return nil, "the search box is not the box() of an item"
+		}
+		recv = resolveCell(boxCall.Call.Args[0])
+		if _, isCall := recv.(*ssa.Call); isCall {
+			rs, _ := accessPath(recv)
+			return recv, "the search starts from the box of " + trunc(rs) + ", a value derived from the item, not from the item's own box"
+		}
+		for _, ev := range envVs {
+			envCall, isCall := ev.(*ssa.Call)
+			if !isCall || len(envCall.Call.Args) != 1 {
+				continue
+			}
+			if ec := staticCallee(envCall); ec == nil || (ec.Name() != "uncheckedEnvelope" && ec.Name() != "Envelope") {
+				continue
+			}
+			if er := resolveCell(envCall.Call.Args[0]); !sameValue(er, recv) && er != recv {
+				es, _ := accessPath(er)
+				rs, _ := accessPath(recv)
+				return recv, "the search starts from the box of " + trunc(rs) + " but prunes with the envelope of " + trunc(es)
+			}
+		}
+		return recv, ""
+	}
+	report := func(at ssa.Instruction, h *ssa.Function, bad string) {
+		c.Check(bad == "", at.Pos(), FuncName(h), "origin of the tree search", "the box of the item whose envelope the pruning test uses", bad+": records are then visited in an order that is not the order of the bound the early stop relies on, and a nearer record can be skipped")
+	}
 	for _, g := range withNewHelpers(f) {
 		for _, h := range append([]*ssa.Function{g}, allAnon(g)...) {
 			for _, ps := range callsTo(h, "rtree.(*RTree).PrioritySearch") {
-				searches++
 				args := ps.Common().Args
-				bad := ""
-				boxCall, ok := args[1].(*ssa.Call)
-				cal := staticCallee(boxCall)
-				if !ok || cal == nil || cal.Name() != "box" || len(boxCall.Call.Args) != 1 {
-					bad = "the search box is not the box() of an item"
-				} else {
-					recv := resolveCell(boxCall.Call.Args[0])
-					if _, isCall := recv.(*ssa.Call); isCall {
-						rs, _ := accessPath(recv)
-						bad = "the search starts from the box of " + trunc(rs) + ", a value derived from the item, not from the item's own box"
+				// the box is a parameter of a function literal / helper that wraps the search:
+				// every call of the wrapper is one search, judged on the values it passes
+				if par, isPar := resolveCell(args[1]).(*ssa.Parameter); isPar && par.Parent() == h {
+					idx := paramIndex(h, par)
+					var sites []ssa.CallInstruction
+					if h.Parent() != nil {
+						mc := makeClosureOf(h)
+						eachCall(h.Parent(), func(ci ssa.CallInstruction) {
+							if v := resolveCell(ci.Common().Value); mc != nil && v == mc.(ssa.Value) {
+								sites = append(sites, ci)
+							}
+						})
+					} else {
+						sites = c.P.callSitesOf(h)
 					}
-					// when the closure captures the item's envelope, it is the envelope of the same item
-					if mc, isMC := args[2].(*ssa.MakeClosure); isMC && bad == "" {
-						for _, b := range mc.Bindings {
-							al, isAl := b.(*ssa.Alloc)
-							if !isAl {
-								continue
+					if idx < 0 || len(sites) == 0 {
+						searches++
+						report(ps.(ssa.Instruction), h, "the search box is a parameter of "+FuncName(h)+" whose callers cannot be found")
+						continue
+					}
+					for _, cs := range sites {
+						searches++
+						cargs := cs.Common().Args
+						var envs []ssa.Value
+						for _, a := range cargs {
+							if namedName(a.Type()) == "Envelope" {
+								envs = append(envs, resolveCell(a))
 							}
-							envCall, isCall := uniqueStoreValue(al).(*ssa.Call)
-							if !isCall || len(envCall.Call.Args) != 1 {
-								continue
-							}
-							if ec := staticCallee(envCall); ec == nil || (ec.Name() != "uncheckedEnvelope" && ec.Name() != "Envelope") {
-								continue
-							}
-							if er := resolveCell(envCall.Call.Args[0]); !sameValue(er, recv) && er != recv {
-								es, _ := accessPath(er)
-								rs, _ := accessPath(recv)
-								bad = "the search starts from the box of " + trunc(rs) + " but prunes with the envelope of " + trunc(es)
+						}
+						_, bad := judge(resolveCell(cargs[idx]), envs)
+						report(cs.(ssa.Instruction), cs.Parent(), bad)
+					}
+					continue
+				}
+				searches++
+				var envs []ssa.Value
+				if mc, isMC := args[2].(*ssa.MakeClosure); isMC {
+					for _, bnd := range mc.Bindings {
+						if al, isAl := bnd.(*ssa.Alloc); isAl {
+							if v := uniqueStoreValue(al); v != nil {
+								envs = append(envs, v)
 							}
 						}
 					}
 				}
+				recv, bad := judge(args[1], envs)
 				// the pruning envelope kept in a variable shared by the searches (captured by the
 				// closures): it must be set, for this search, to the envelope of this search's item
-				if bad == "" && boxCall != nil && len(boxCall.Call.Args) == 1 {
-					recv := resolveCell(boxCall.Call.Args[0])
+				if bad == "" && recv != nil {
 					for _, al := range sharedPruningEnvelopes(h) {
 						okStore := false
 						var loop map[*ssa.BasicBlock]bool
@@ -545,7 +616,7 @@ func runC09Distance(c *Ctx) {
 						}
 					}
 				}
-				c.Check(bad == "", ps.Pos(), FuncName(h), "origin of the tree search", "the box of the item whose envelope the pruning test uses", bad+": records are then visited in an order that is not the order of the bound the early stop relies on, and a nearer record can be skipped")
+				report(ps.(ssa.Instruction), h, bad)
 			}
 		}
 	}
